@@ -137,10 +137,16 @@ type Scenario struct {
 	// start), "no-pps" (SDP with SPS only, legal per RFC 6184 §8.2.1),
 	// "truncated-sps" (replaced in band), "sps-only" (H.265 sprop-sps without
 	// sprop-vps / sprop-pps), "nothing".
-	Late   string  `json:"late_param_sets,omitempty"`
-	Base   string  `json:"time_base_class"`
-	Frames []Frame `json:"frames"`
-	Joins  []Join  `json:"joins"`
+	Late string `json:"late_param_sets,omitempty"`
+	// AudioLead (with Late and Audio): the first AudioLead frames are AAC frames
+	// that reach the muxer BEFORE the parameter sets are completed — the RTP
+	// depacketiser holds video back until the sets are known, audio is forwarded
+	// at once. Such frames may be dropped or delivered after the configuration
+	// tags (the statement fixes neither), but never ahead of them.
+	AudioLead int     `json:"audio_lead,omitempty"`
+	Base      string  `json:"time_base_class"`
+	Frames    []Frame `json:"frames"`
+	Joins     []Join  `json:"joins"`
 }
 
 func (s *Scenario) paramSet() paramSet {
@@ -400,8 +406,12 @@ func drawScenario(t *rapid.T, layer, codecName string, audio bool, forceSynth *b
 		min = 2
 	}
 	vstep := rapid.SampledFrom([]int64{40 * ms, 33366667, 66733333, 20 * ms, 1 * ms, 1000 * ms}).Draw(t, "vstep")
+	if layer == "muxer" && audio && s.Late != "" && rapid.Bool().Draw(t, "audioLeads") {
+		s.AudioLead = rapid.IntRange(1, 4).Draw(t, "audioLead")
+		n += s.AudioLead
+	}
 	for i := 0; i < n; i++ {
-		if audio && rapid.IntRange(0, 9).Draw(t, "isAudio") < 4 {
+		if audio && (i < s.AudioLead || rapid.IntRange(0, 9).Draw(t, "isAudio") < 4) {
 			sz := rapid.SampledFrom([]int{1, 2, 7, 180, 371, 372, 1024, 6144}).Draw(t, "auSize")
 			s.Frames = append(s.Frames, Frame{Audio: true, Size: sz, Seed: rapid.Uint32().Draw(t, "seed"), Dts: adts, Pts: adts})
 			adts += astep * rapid.Int64Range(1, 3).Draw(t, "auGap")
@@ -459,5 +469,5 @@ func (s *Scenario) summary() string {
 			}
 		}
 	}
-	return fmt.Sprintf("%s/%s ps=%s late=%q audio=%v base=%s video=%d(key %d) audio=%d joins=%v", s.Layer, s.Codec, s.paramSet().Name, s.Late, s.Audio, s.Base, v, k, a, s.Joins)
+	return fmt.Sprintf("%s/%s ps=%s late=%q lead=%d audio=%v base=%s video=%d(key %d) audio=%d joins=%v", s.Layer, s.Codec, s.paramSet().Name, s.Late, s.AudioLead, s.Audio, s.Base, v, k, a, s.Joins)
 }
